@@ -11,6 +11,9 @@
 //	stream: compiler.Stream / circuit.StreamEvaluator (generated MPCL programs)
 //	overlap: a garbler process serving overlapping sessions on one shared
 //	         circuit value (overlap.go); oracle over the union of all sessions
+//	cover:  streaming sessions of programs chosen by instruction-kind coverage,
+//	        analysed gate by gate (streamcov.go, shadow.go)
+//	direct: circuit.Streaming driven on histories of generated circuits
 package main
 
 import (
@@ -55,6 +58,10 @@ func main() {
 		os.Exit(otRange(os.Args[2:]))
 	case "overlap":
 		os.Exit(overlap(os.Args[2:]))
+	case "cover":
+		os.Exit(cover(os.Args[2:]))
+	case "direct":
+		os.Exit(direct(os.Args[2:]))
 	default:
 		fmt.Fprintf(os.Stderr, "unknown mode %q\n", os.Args[1])
 		os.Exit(2)
